@@ -117,6 +117,8 @@ type FnCtx struct {
 	rangeSeen map[ssa.Value]string
 	panics   []Term
 	nonnil   map[string]bool
+	guardSeen map[string]bool
+	freshRefs map[string]bool
 }
 
 type retRec struct {
@@ -168,6 +170,9 @@ var nextVar = HeapVar{"$next", SInt, HGhost}
 func (fc *FnCtx) alloc(st *State) Term {
 	n := fc.heapGet(st, nextVar)
 	r := fc.S.Define("ref", n)
+	if fc.top.freshRefs != nil {
+		fc.top.freshRefs[r.S] = true
+	}
 	fc.heapSet(st, nextVar, app(SInt, "+", n, IntLit(1)))
 	return r
 }
